@@ -42,7 +42,7 @@ class JsonResource(Resource):
         else:
             self.to_obj(d, first=True)
         self.uri.close_stream()
-        for inst, refs in self._load_href.items():
+        for inst, refs in list(self._load_href.items()):
             self.process_inst(inst, refs)
         self._load_href.clear()
         self._find_feature.cache_clear()
@@ -183,7 +183,18 @@ class JsonResource(Resource):
     def to_obj(self, d, owning_feature=None, first=False):
         is_ref = self.ref_tag in d
         if is_ref:
-            return EProxy(path=d[self.ref_tag], resource=self)
+            path = d[self.ref_tag]
+            if not first and not self._is_external(path)[0]:
+                # a reference inside this resource: references are processed
+                # once the whole tree exists, so the target can be used
+                # directly instead of a proxy that only looks like it
+                try:
+                    target = self.resolve(path)
+                except Exception:
+                    target = None
+                if target is not None:
+                    return target
+            return EProxy(path=path, resource=self)
         excludes = ['eClass', self.ref_tag, 'uuid']
         if 'eClass' in d:
             uri_eclass = d['eClass']
